@@ -6,6 +6,8 @@ Import ListNotations.
 From V Require Import Model.SnapOps Proofs.SnapOpsFlat Proofs.SnapOpsNested Proofs.SnapOpsRuns.
 From V Require Import Model.TreeAssign Proofs.TreeAssignProofs Proofs.TreeAssignConfluence.
 From V Require Import Model.CallAssign Proofs.CallAssignProofs Proofs.CallAssignConfluence.
+From V Require Import Model.DictAssign Proofs.DictAssignProofs.
+Close Scope Z_scope.
 
 Theorem C09_two_runs_compose_flat :
   forall (fixed1 fixed2 : bool) (F1 F2 : flags) (K : kind) (old : option src) 
@@ -101,6 +103,14 @@ Theorem C09_call_result_anchored :
     ++ flat_map (kw_part F fs (groups_of c fs)) (c_kws c).
 Proof. exact call_result_anchored. Qed.
 
+(* dict displays (Model/DictAssign.v, values are nested lists / tuples): a run with F1 followed by a run with F2 on the display the first
+   run wrote leaves the same entries - same order, same texts - as one run with F1 and F2 together, for all flag sets *)
+Theorem C09_dict_two_runs_compose :
+  forall (F1 F2 : flags) (olds : list entry) (news : list (Z * val)),
+  managed_entries olds -> NoDup (map e_key olds) -> NoDup (map fst news) ->
+  entries_of (dict_result F2 (entries_of (dict_result F1 olds news)) news) = entries_of (dict_result (funion F1 F2) olds news).
+Proof. exact dict_two_runs_compose. Qed.
+
 Print Assumptions C09_two_runs_compose_flat.
 Print Assumptions C09_runs_confluent_flat.
 Print Assumptions C09_runs_order_irrelevant_flat.
@@ -113,3 +123,4 @@ Print Assumptions C09_assign_fix_update_canon.
 Print Assumptions C09_align_ext.
 Print Assumptions C09_call_two_runs_compose.
 Print Assumptions C09_call_result_anchored.
+Print Assumptions C09_dict_two_runs_compose.
